@@ -283,7 +283,37 @@ def isDirLine : List Tok → Bool
   | (.ch '#' :: _) :: _ => true
   | _ => false
 
-def lexLineC (l : List Tok) : List Tok := l.flatMap (lexChunk cfgC [] 0)
+/-- `# include ...` -/
+def isIncludeLine : List Tok → Bool
+  | [.ch '#'] :: t :: _ => t == "include".toList.map Out.ch
+  | _ => false
+
+/-- drop the first `n` tokens of a line given chunk by chunk -/
+def dropFront : Nat → List (List Tok) → List (List Tok)
+  | _, [] => []
+  | n, c :: cs => if n ≥ c.length then dropFront (n - c.length) cs else c.drop n :: cs
+
+/-- `# define ...` -/
+def isDefineLine : List Tok → Bool
+  | [.ch '#'] :: t :: _ => t == "define".toList.map Out.ch
+  | _ => false
+
+/-- in `#define NAME(` the parenthesis directly after the name makes the macro function-like:
+    the name and the parenthesis stay one token, `#define NAME (` is something else -/
+def glueMacroParen : List (List Tok) → List (List Tok)
+  | (n :: p :: r) :: cs => if p == [Out.ch '('] then ((n ++ p) :: r) :: cs else (n :: p :: r) :: cs
+  | cs => cs
+
+/-- The language tokens of a line of chunks.  After `#include` a header name `<a/b.h>` is one
+    preprocessing token: what remains of each chunk is left unsplit there.  After `#define` see
+    `glueMacroParen`. -/
+def lexLineC (l : List Tok) : List Tok :=
+  let per := l.map (lexChunk cfgC [] 0)
+  if isIncludeLine per.flatten then
+    per.flatten.take 2 ++ ((dropFront 2 per).map List.flatten).filter (fun t => !t.isEmpty)
+  else if isDefineLine per.flatten then
+    per.flatten.take 2 ++ (glueMacroParen (dropFront 2 per)).flatten
+  else per.flatten
 /-- preprocessor lines inside Fortran sources are C preprocessor text (case sensitive) -/
 def lexLineF (l : List Tok) : List Tok :=
   if isDirLine l then lexLineC l else l.flatMap (fun t => lexChunk cfgF [] 0 (t.map foldCase))
